@@ -133,6 +133,19 @@ type Config struct {
 	// at least that long.  The duration is a workload parameter only; the
 	// verdicts are the usual ones (per-id counts, no-return by goroutine dump).
 	LongDrain bool `json:"long_drain,omitempty"`
+	// SlowBacklog: duration of the work that is left AFTER the drain as a
+	// dimension.  k <= workers + queue requests are all inside the work queue /
+	// with a worker when Stop is called (nothing parked in the NATS client, so
+	// Stop returns at once); the gate opens GateUs after Stop was called and
+	// every handler then takes PostGateUs: Serve has to wait about
+	// ceil(k/w) x PostGateUs for its workers after it closed the queue.  The
+	// duration is a workload parameter only; the verdicts are the usual ones,
+	// taken at the instant Serve returns.
+	SlowBacklog bool `json:"slow_backlog,omitempty"`
+	// CloseConn: the caller closes the server's NATS connection as soon as
+	// Serve has returned (which the documentation allows): a reply that was
+	// not published before Serve returned can never arrive.
+	CloseConn bool `json:"close_conn_at_serve_return,omitempty"`
 }
 
 // Snap is a snapshot of the boundary counters.
@@ -853,6 +866,9 @@ func runScenario(ns *rig.NatsServer, c Config) (res *Result) {
 		if err := flush(pubConn); err != nil {
 			return err
 		}
+		if c.CloseConn && srvConn.IsClosed() { // closed by the caller after Serve returned: it reads nothing any more
+			return nil
+		}
 		return flush(srvConn)
 	}
 
@@ -965,10 +981,17 @@ func runScenario(ns *rig.NatsServer, c Config) (res *Result) {
 	var serveSnap Snap
 	var serveAt time.Time
 	serveCalls := map[uint64]int{} // processor invocations per id at the instant Serve returns
+	clientsBeforeClose := 0
 	go c20ServeGoroutine(func() {
 		s.serveEntered.Store(true)
 		serveErr = server.Serve()
 		serveSnap = s.snap() // the instant Serve returns
+		if c.CloseConn {
+			// the caller is done with the connection once Serve has returned
+			// (Close writes out what was published before it)
+			clientsBeforeClose = ns.S.NumClients()
+			srvConn.Close()
+		}
 		if c.Blip != "" {
 			s.res.BlipAtServeRet = srvConn.Status().String()
 		}
@@ -1272,7 +1295,16 @@ func runScenario(ns *rig.NatsServer, c Config) (res *Result) {
 	}
 
 	// ---- collect replies: one Flush round trip on each connection -------
-	if err := flush(srvConn); err != nil {
+	if c.CloseConn {
+		// the server's connection was closed right after Serve returned: Close
+		// wrote out everything published before it; the broker has routed all
+		// of it once it has dropped that client (it reads a connection in order
+		// and sees the end of the stream last)
+		if !s.awaitCond(func() bool { return ns.S.NumClients() < clientsBeforeClose }, nil) {
+			return s.inconclusive("broker did not drop the server's closed connection (%d clients before Close, %d now)", clientsBeforeClose, ns.S.NumClients())
+		}
+		s.mark("server connection closed by the caller, broker dropped it")
+	} else if err := flush(srvConn); err != nil {
 		return s.inconclusive("server conn flush after Serve: %v", err)
 	}
 	if err := flush(colConn); err != nil {
@@ -1351,7 +1383,9 @@ func runScenario(ns *rig.NatsServer, c Config) (res *Result) {
 	}
 	// whatever the server's client got has been through its callback
 	lateBarrier := make(chan struct{})
-	if err := srvConn.Barrier(func() { close(lateBarrier) }); err != nil {
+	if c.CloseConn { // a closed connection delivers nothing
+		close(lateBarrier)
+	} else if err := srvConn.Barrier(func() { close(lateBarrier) }); err != nil {
 		return s.inconclusive("barrier after late requests: %v", err)
 	}
 	if !s.await(lateBarrier) {
